@@ -40,6 +40,34 @@ CLAIMED = {
             "driver (bit-exact at slack 0) and checked directly by the spend-back experiment of the property's quantifier.",
             "Trusted: Lean kernel + Mathlib; number of iterations of the double-precision loop is observed (>= 52 or exact "
             "root), not proved; two rounding regions are listed known findings.", "§6 C18"),
+    "C02": ("Lean 4 proof: (eps,delta) theorems for the Laplace family/uniform/staircase on all measurable sets, calibration "
+            "identities, bracket invariants of the root finders (any carrier) + calibration correspondence and 60-digit "
+            "hockey-stick evaluation from the implementation's parameters",
+            "Machine-checked: Laplace with the coded scale is (eps,delta)-DP on every measurable set (density ratio, "
+            "normalisation proved via the Gamma integral, lift to sets, (e^eps/(1-delta)) => (eps,delta)), also after any "
+            "measurable post-processing (truncation, folding); uniform; staircase for every gamma and the sampler's "
+            "parameters; snapping identity eff*(1+12B eta)+2 eta = eps; bounded-noise overlap ratio and tail mass = delta; "
+            "the coded analytic-Gaussian b+/b- are the Balle-Wang expression; discrete-Gaussian accumulators are the partial "
+            "sums and the returned scale has objective <= 0; bracket invariants of all three root finders for any carrier. "
+            "PARTIAL (kept as `def ..._full : Prop`): end-to-end statements for bounded-noise, bounded-domain, classical/"
+            "analytic Gaussian need cited results (Geng et al., Holohan et al., Balle-Wang, a Mills-ratio fact) and the side "
+            "of the root on which a midpoint falls — measured on every run. Tied to the code by reading the scale actually "
+            "used off the running sampler and comparing with the driver; the property itself is evaluated at 60 digits "
+            "(hockey-stick divergence over displacements and positions) from the implementation's calibrated parameters.",
+            "Trusted: Lean kernel + Mathlib; cited theorems enter as explicit hypotheses; harness/contlaw.py (60-digit laws); "
+            "numeric erf/erfc Float instance (checked against math.erf/erfc on every run).", "§6 C02"),
+    "C19": ("Lean 4 proof: moments of the geometric/Laplace/uniform laws equal the coded closed forms, mse decomposition, "
+            "monotonicity + closed-form correspondence and 60-digit moments of the law built from the sampler's own scale",
+            "Machine-checked: geometric variance (series over Z) = coded expression and mean 0; Laplace variance 2b^2 and mean "
+            "0 (integrals computed); uniform; Gaussian (unit-normal moments as hypotheses); mse = variance + bias^2; "
+            "variance antitone in epsilon / monotone in sensitivity for all four; folded bias new = old expression; zero-scale "
+            "moments; truncated/bounded-domain moments for a value inside a finite domain with three integral evaluations as "
+            "hypotheses (PARTIAL). Tied to the code by comparing bias/variance/mse with the driver, and checked directly: "
+            "moments recomputed at 60 digits from the exact pmf / the closed-form law with the scale the SAMPLER uses. The "
+            "regions where the code's closed forms are wrong (value outside the domain, infinite bounds, cancellation) are "
+            "listed open known findings and are exactly what the _partial theorems exclude.",
+            "Trusted: Lean kernel + Mathlib; harness/contlaw.py; folded-law mean (infinite reflection sum) validated "
+            "numerically only.", "§6 C19"),
     "C10": ("Lean 4 proof: clip helpers in bounds / identity on the domain / idempotent for the function as coded (any linear "
             "order) + exact helper correspondence and seeded end-to-end equality f(D) == f(clip D)",
             "Machine-checked: for the whole clip_to_bounds as coded (exact-equality fast path + per-feature path) and the 1-D "
